@@ -123,6 +123,13 @@ async fn handle_stream(
         "Connecting to origin server: {}",
         settings.server_address
     );
+    #[cfg(trusttunnel_verif)]
+    crate::verif_emit!(
+        "ConnectAttempt",
+        "\"id\":\"{}\",\"addr\":\"{}\"",
+        log_id,
+        settings.server_address
+    );
     let metrics_guard = context.metrics.clone().outbound_tcp_socket_counter();
     let server_stream = TcpStream::connect(settings.server_address).await?;
     server_stream.set_nodelay(true)?;
